@@ -201,9 +201,6 @@ Definition borders_oracle (prefix : bytes) (sk : list bytes) (bs : list bytes) (
   if pairs_proper bs && forallb (fun x => Bool.eqb (in_borders bs (rkey x)) (in_charge prefix sk (rkey x))) V then None
   else Some 0.
 
-Definition has_delcas (v : c07_variant) : bool :=
-  existsb (fun p => match p with (KDel, (_, OFailCond)) => true | _ => false end) (combine (v7_kinds v) (v7_oc v)).
-
 Fixpoint find_get (k : bytes) (reads : list c07_read) (res : list c07_rres) : option (option (N * bytes)) :=
   match reads, res with
   | RdGet k' 0 :: rt, RGot o :: st => if beqb k k' then Some o else find_get k rt st
@@ -247,9 +244,9 @@ Definition variant_oracle (prefix : bytes) (sk : list bytes) (pre : store) (read
   if negb (outside_untouched prefix sk pre (apply_diff pre (v7_post v))) then
     Some 0
   else if negb (list_eqb rres_eqb7 (before_of cb v) (after_of cb v)) then
-    (if has_delcas v then Some 2 else Some 0)
+    Some 0
   else if negb (round_ok (v7_cur2 v) reads (after_of cb v) [] (v7_round v)) then
-    (if has_delcas v then Some 2 else Some 0)
+    Some 0
   else None.
 
 Fixpoint first_some {A} (f : A -> option N) (l : list A) : option N :=
